@@ -260,6 +260,26 @@ def rename(vtype, prof, sigma):
 # ------------------------------------------------------------------------------------------------
 # evaluator families
 
+class _PureConstrained:
+    """PureProportionality with a cap on the (unique) largest party one seat below its exact share and previous seats for the
+    (unique) smallest party equal to its exact share rounded up - both chosen from the vote VALUES only, so the election is the
+    same under every order of presentation, renaming and positive scaling.  Both constraints bind in the same pass."""
+    def evaluate(self, votes, n_seats):
+        import math
+        import votelib.evaluate.proportional as vp
+        total = sum(votes.values())
+        prev, caps = {}, {}
+        if total > 0 and len(votes) >= 3:
+            vals = sorted(votes.values())
+            if vals[-1] != vals[-2]:
+                top = [c for c, v in votes.items() if v == vals[-1]][0]
+                caps[top] = max(math.floor(Fraction(vals[-1]) * n_seats / total) - 1, 0)
+            if vals[0] != vals[1]:
+                low = [c for c, v in votes.items() if v == vals[0]][0]
+                prev[low] = math.ceil(Fraction(vals[0]) * n_seats / total)
+        return vp.PureProportionality().evaluate(votes, n_seats, prev_gains=prev, max_seats=caps)
+
+
 class Family:
     def __init__(self, name, vtype, make, kind='sel', scale_free=True, order_free=True, declared=False,
                  n_seats=True, small_weights=False, notes='', partial=False, pairwise_cands=False):
@@ -300,6 +320,11 @@ def families():
         F.append(Family(f'qd_{q}', 'simple', (lambda q=q: vp.QuotaDistributor(q)), kind='dist',
                         scale_free=(q == 'hare'), declared=True, partial=True,
                         notes='quota distributor awards whole quotas only'))
+    # exact proportional shares (fractional seats by design: not a family of C08)
+    F.append(Family('pure_proportionality', 'simple', lambda: vp.PureProportionality(), kind='dist', declared=False))
+    F.append(Family('pure_proportionality_constrained', 'simple', lambda: _PureConstrained(), kind='dist', declared=False))
+    for _fam in F[-2:]:
+        _fam.fractional = True
     F.append(Family('rel_threshold_5pc', 'simple', lambda: vt.RelativeThreshold(Fraction(5, 100)), kind='seatless',
                     n_seats=False))
     # the library's own idiom (all real-election tests): Decimal thresholds; and a float, whose exact value counts
